@@ -329,7 +329,7 @@ func RunCheck(t *testing.T, chk Check) int {
 		inconclusive = true
 	}
 	// evidence
-	if *FlagCase == "" && os.Getenv("VERIF_NOEVIDENCE") == "" {
+	if *FlagCase == "" && os.Getenv("VERIF_NOEVIDENCE") == "" && chk.Level != "" && len(chk.Prop) == 3 {
 		cov := map[string]any{
 			"evaluations":         res.cases,
 			"distinct_nontrivial": nontriv,
@@ -347,13 +347,17 @@ func RunCheck(t *testing.T, chk Check) int {
 		if len(res.inconcl) > 0 {
 			cov["inconclusive"] = res.inconcl
 		}
+		assumptions := chk.Assumptions
+		if assumptions == nil {
+			assumptions = []string{}
+		}
 		ev := map[string]any{
 			"property_id": chk.Prop,
 			"tier":        tier,
 			"seed":        seed,
 			"level":       chk.Level,
 			"coverage":    cov,
-			"assumptions": chk.Assumptions,
+			"assumptions": assumptions,
 			"wall_s":      time.Since(start).Seconds(),
 			"violations":  newViol,
 		}
